@@ -484,3 +484,98 @@ def g7(ctx):
                 ctx.instance('%s accesses the thread-handle cell' % key)
                 if key not in (SIGK + 'wait', SIGK + 'wake'):
                     ctx.violate(key, None, 'thread-handle cell accessed outside wait/wake', at=t.get('at'), sig='cell-access')
+
+
+@rule('G8', ['C04', 'C05', 'C06', 'C07', 'C13', 'C16'], 'small signal helpers: is_terminated is `state == TERMINATED`; assume_init / load_and_drop read this signal\'s ptr once; register_waker stores a clone of the given waker; will_wake asks the stored waker; set_ptr stores its argument; constructors pick the matching waker kind')
+def g8(ctx):
+    def body(nm, need_async=False):
+        if need_async and not ctx.has_async():
+            return None
+        b = ctx.body(SIGK + nm)
+        if b is None:
+            ctx.violate(SIGK + nm, None, 'anchor missing', sig='anchor')
+        return b
+    own_ptr = ('pfield', ('deref', ('param', 1)), 'ptr')
+    b = body('is_terminated')
+    if b is not None:
+        ctx.instance(b.key)
+        for p, evs in ret_paths(ctx, b):
+            ctx.oblige(1, sample='is_terminated -> %s' % fmt(p.ret))
+            r = p.ret
+            ok = r is not None and r[0] == 'bin' and r[1] == 'Eq' and ((is_state_read(r[2]) and is_const(r[3], TERMINATED)) or (is_state_read(r[3]) and is_const(r[2], TERMINATED)))
+            if not ok:
+                ctx.violate(b.key, p, 'is_terminated is not `state == TERMINATED` (a still-LOCKED or an UNLOCKED signal would be treated as terminated: the waiter leaves while listed / drops a value the receiver owns): %s' % fmt(r))
+            ops = atomic_ops(p)
+            if len(ops) != 1 or ops[0]['m'] != 'load' or ops[0]['base'] != ('deref', ('param', 1)):
+                ctx.violate(b.key, p, 'is_terminated does not read this signal\'s state exactly once')
+    b = body('assume_init')
+    if b is not None:
+        ctx.instance(b.key)
+        for p, evs in ret_paths(ctx, b):
+            ctx.oblige(1, sample='assume_init -> %s' % fmt(p.ret))
+            r = p.ret
+            ok = r is not None and r[0] == 'call' and r[2] == 'pointer::KanalPtr::read' and r[3][0][0] in ('ref', 'rawptr') and r[3][0][1] == own_ptr
+            if not ok or len([e for e in p.events if e.kind == 'call']) != 1:
+                ctx.violate(b.key, p, 'Signal::assume_init is not exactly `self.ptr.read()`: %s' % fmt(r))
+    b = body('load_and_drop', True)
+    if b is not None:
+        ctx.instance(b.key)
+        for p, evs in ret_paths(ctx, b):
+            ctx.oblige(1, sample='load_and_drop reads ptr once and drops the value')
+            reads = [e for e in p.events if e.kind == 'call' and e.name == 'pointer::KanalPtr::read']
+            if len(reads) != 1 or reads[0].args[0][1] != own_ptr:
+                ctx.violate(b.key, p, 'load_and_drop does not read this signal\'s ptr exactly once')
+                continue
+            drops = [e for e in p.events if e.kind == 'drop' and e.val == reads[0].val]
+            md = [e for e in p.events if e.kind == 'call' and e.name == 'std::mem::drop' and e.args and e.args[-1] == reads[0].val]
+            if len(drops) + len(md) != 1:
+                ctx.violate(b.key, p, 'load_and_drop does not drop the value it read exactly once (%d)' % (len(drops) + len(md)))
+            if any(e.kind == 'call' and e.name == 'std::mem::forget' for e in p.events):
+                ctx.violate(b.key, p, 'load_and_drop forgets the value')
+    b = body('register_waker', True)
+    if b is not None:
+        ctx.instance(b.key)
+        for p, evs in ret_paths(ctx, b):
+            ctx.oblige(1, sample='register_waker stores Async(waker.clone())')
+            wrs = [e for e in p.events if e.kind == 'wr' and e.place == ('pfield', ('deref', ('param', 1)), 'waker')]
+            ok = False
+            if len(wrs) == 1:
+                v = wrs[0].val
+                if v[0] == 'agg' and v[1].endswith('KanalWaker') and v[2] == 'Async' and v[3]:
+                    c = v[3][0]
+                    ok = c[0] == 'call' and c[2] == 'std::clone::Clone::clone' and c[3][0] == ('param', 2)
+            if not ok:
+                ctx.violate(b.key, p, 'register_waker does not store KanalWaker::Async(clone of its argument)')
+    b = body('will_wake', True)
+    if b is not None:
+        ctx.instance(b.key)
+        for p, evs in ret_paths(ctx, b):
+            ctx.oblige(1, sample='will_wake -> %s' % fmt(p.ret))
+            r = p.ret
+            ok = r is not None and r[0] == 'call' and r[2] == 'std::task::Waker::will_wake' and len(r[3]) == 2 and r[3][1] == ('param', 2) and contains(r[3][0], ('pfield', ('deref', ('param', 1)), 'waker'))
+            if not ok:
+                ctx.violate(b.key, p, 'will_wake is not `stored_waker.will_wake(waker)`: %s' % fmt(r))
+    b = body('set_ptr', True)
+    if b is not None:
+        ctx.instance(b.key)
+        for p, evs in ret_paths(ctx, b):
+            ctx.oblige(1)
+            wrs = [e for e in p.events if e.kind == 'wr']
+            if len(wrs) != 1 or wrs[0].place != own_ptr or wrs[0].val != ('param', 2):
+                ctx.violate(b.key, p, 'set_ptr does not store its argument into this signal\'s ptr')
+    for nm, kind, need in (('new_sync', 'Sync', False), ('new_async', 'None', True), ('new_async_ptr', 'None', True)):
+        b = body(nm, need)
+        if b is None:
+            continue
+        ctx.instance(b.key)
+        for p, evs in ret_paths(ctx, b):
+            ctx.oblige(1, sample='%s builds waker kind %s' % (nm, kind))
+            r = p.ret
+            if not (r is not None and r[0] == 'agg' and r[1] == 'signal::Signal'):
+                continue
+            f = dict(zip(r[4], r[3]))
+            w = f.get('waker')
+            if not (w is not None and w[0] == 'agg' and w[2] == kind):
+                ctx.violate(b.key, p, '%s does not start with waker kind %s: %s' % (nm, kind, fmt(w)))
+            if nm in ('new_sync', 'new_async_ptr') and f.get('ptr') != ('param', 1):
+                ctx.violate(b.key, p, '%s does not store the given pointer' % nm)
